@@ -12,6 +12,7 @@
    starts, work-function returns and completions of item i in a sequence. *)
 From Coq Require Import List ZArith Bool.
 From Ivv Require Import MT.WorkMT MT.WorkMTSpec MT.WorkMTMon MT.WorkMTInvI MT.WorkMTSim MT.WorkMTFinal.
+From Ivv Require Gen.LeafWork MT.WorkLink.
 Import ListNotations.
 Local Open Scope Z_scope.
 
@@ -98,6 +99,34 @@ Theorem C12_monitor_accepts :
   forall o tr, accepts o tr = true -> mon12_ok o tr = true.
 Proof. exact accepts_mon12. Qed.
 Print Assumptions C12_monitor_accepts.
+
+(* THE SEQUENCE-NUMBER TESTS OF THE MODEL ARE THE CODE.  Gen/LeafWork.v is regenerated on every run by gen/c2gallina.py
+   from the clang AST of the current src/iv_work.c, with the C integer semantics explicit (Base/CSem.v: uint32_t
+   arithmetic wraps modulo 2^32, (int32_t) reduces into [-2^31, 2^31), None = undefined behaviour):
+   `while ((int32_t)(last_seq - pool->seq_head) > 0)`, `if (pool->seq_head == pool->seq_tail)`, `pool->seq_head++`,
+   `last_seq = pool->seq_tail` of iv_work_thread_got_event and `pool->seq_tail++` of iv_work_submit_pool.  For ALL integers
+   they are defined and equal to the model's more_work (signed test modulo 2^32), =?, (_ + 1) mod M32; the model's critical
+   section cs_loop is literally the loop written with the translated pieces (MT/WorkLink.v cs_loop_code); and in every
+   reachable state (invariant W1: |items| = seq_tail - seq_head mod 2^32 < 2^31) the translated tests, applied to the
+   current fields, see exactly whether work is queued. *)
+Theorem C12_seq_tests_are_the_code :
+  (forall last head, Ivv.Gen.LeafWork.work_more_test last head = Some (more_work last head)) /\
+  (forall head tail, Ivv.Gen.LeafWork.work_drained_test head tail = Some (head =? tail)) /\
+  (forall head, Ivv.Gen.LeafWork.work_take_seq head = Some ((head + 1) mod M32)) /\
+  (forall tail, Ivv.Gen.LeafWork.work_submit_seq tail = Some ((tail + 1) mod M32)) /\
+  (forall tail, Ivv.Gen.LeafWork.work_last_seq tail = Some tail) /\
+  (forall p w wr last, cs_loop p w wr last = Ivv.MT.WorkLink.cs_loop_code p w wr last) /\
+  (forall p isown i p' k e, cs_submit p isown i = Some (p', k, e) ->
+     Some (ptail p') = Ivv.Gen.LeafWork.work_submit_seq (ptail p)) /\
+  (forall o tr s p, run (init o) tr = Some s -> pl s = PLive p ->
+     Ivv.Gen.LeafWork.work_more_test (ptail p) (phead p) = Some (negb (nilb (pitems p))) /\
+     Ivv.Gen.LeafWork.work_drained_test (phead p) (ptail p) = Some (nilb (pitems p))).
+Proof.
+  exact (conj Ivv.MT.WorkLink.leaf_more_work (conj Ivv.MT.WorkLink.leaf_drained (conj Ivv.MT.WorkLink.leaf_take_seq
+        (conj Ivv.MT.WorkLink.leaf_submit_seq (conj Ivv.MT.WorkLink.leaf_last_seq (conj Ivv.MT.WorkLink.cs_loop_is_the_code
+        (conj Ivv.MT.WorkLink.cs_submit_is_the_code Ivv.MT.WorkLink.leaf_tests_see_queue))))))).
+Qed.
+Print Assumptions C12_seq_tests_are_the_code.
 
 (* Non-vacuity: the label sequence of a real log (max_threads = 2, three submissions, a continuation from a work
    function, two pool threads, self-kick with work pending, put from a completion, both threads stopped and
